@@ -10,6 +10,41 @@ LEVEL = 'other'
 def run(ck):
     ck.trust('Coq 8.16.1 kernel (copy/padding model theorem)', 'byte comparison between runs of the same build', 'harness/scn/svt_scn.c builds the caller pictures (stride, padding fill, scribble + free after send)')
     ck.prove('Properties_C21', extra_modules=['InputCopy'])
+    # ---- the model against the real copy / pad_input_picture / generate_padding, plane by plane
+    from lib import build, obs
+    okl, d_, log_ = build.ensure_lib('rel')
+    lp = build.lib_paths('rel')
+    pb = os.path.join(CACHE, 'h', 'c21', 'pad')
+    okp, plog = build.cc(pb, [os.path.join(VERIF, 'harness/unit/pad_harness.c')], flags='-w', libs=lp['enc']) if okl else (False, log_[-300:])
+    okm, mb, mlog = obs.build_obs('C21') if os.path.exists(os.path.join(COQ, 'theories', 'InputCopy.vo')) else (False, '', 'model did not compile')
+    ck.obligation('build the padding harness and the extracted model', okp and okm, (plog + mlog)[-300:])
+    if okp and okm:
+        cases = []
+        rng = ck.rng
+        for _ in range(400 if ck.tier == 'quick' else 4000):
+            W = rng.choice([1, 2, 3, 7, 8, 9, 13, 16, 20, 24]); H = rng.choice([1, 2, 3, 5, 8, 9, 12])
+            Wal = rng.choice([W, (W + 7) // 8 * 8, W + rng.randrange(0, 5)]); Hal = rng.choice([H, (H + 7) // 8 * 8, H + rng.randrange(0, 4)])
+            L = rng.choice([0, 1, 4, 8]); T = rng.choice([0, 1, 3, 4])
+            stride = rng.choice([W, min(Wal + L, W + 1), Wal, Wal + L, rng.randrange(W, Wal + L + 1)])
+            cases.append((T, L, W, Wal, L, H, Hal, T, stride, rng.randrange(1, 1 << 30)))
+        inp = ''.join(' '.join(map(str, c)) + '\n' for c in cases)
+        rc1, real = sh(pb, input=inp, timeout=300)
+        rc2, mod = sh(mb, input=real, timeout=600)
+        def blocks(txt, tag):
+            out = []; cur = []
+            for l in txt.split('\n'):
+                if l.startswith(tag + ' '):
+                    cur.append(l[2:])
+                elif l.startswith('E'):
+                    out.append(cur); cur = []
+            return out
+        rb, mbk = blocks(real, 'C'), blocks(mod, 'M')
+        bad = [i for i in range(min(len(rb), len(mbk))) if rb[i] != mbk[i]]
+        okc = len(rb) == len(cases) == len(mbk) and not bad
+        ck.obligation('correspondence(extracted process_picture = real row copy + pad_input_picture + generate_padding on %d generated planes)' % len(cases), okc, 'first differing case: %s' % (cases[bad[0]],) if bad else '%d / %d / %d blocks' % (len(rb), len(mbk), len(cases)))
+        ck.evals += len(cases)
+        for c in cases:
+            ck.case(('plane', c[2] == c[3], c[5] == c[6], c[1] == 0, c[8] == c[2]))
     ok, binp, stamp = e2e.driver(ck)
     if not ok:
         ck.violation('tie_broken', 'scenario driver does not build', dict(), False); return
